@@ -126,9 +126,44 @@ func one(data []byte, want result, cuts []int, maxPer int, eofWith bool, label s
 	}
 }
 
+// zeroReads: a reader that answers one Read call with (0, nil) - at every
+// offset - or every other call; "nothing happened" must not change the result.
+func zeroReads(data []byte, want result, label string) {
+	try := func(fr *faultio.FragReader, feature string, at int) {
+		var s *smf.SMF
+		var err error
+		c := engine.Catch(func() { s, err = smf.ReadFrom(fr) })
+		got := summarize(s, err, c)
+		ctx.Eval()
+		if fr.Zeros > 0 {
+			ctx.NontrivialN(1)
+		}
+		if reflect.DeepEqual(got, want) {
+			return
+		}
+		sig := "zero-read:" + want.kind + "->" + got.kind + ":" + feature
+		if got.kind == "panic" {
+			sig = got.sig + ":zero-read:" + feature
+		}
+		if ctx.SigCount(sig) < 10 {
+			ctx.Violation(sig, map[string]interface{}{"kind": "zero-read", "file": engine.Hex(data), "zero_at": at, "family": label,
+				"what": fmt.Sprintf("reading from memory gives %s; from a reader that once returns (0, nil) at offset %d (-1: every other call) it gives %s", want.kind, at, got.kind)})
+		}
+	}
+	try(&faultio.FragReader{Data: data, ZeroEvery: true}, "every-other-call", -1)
+	try(&faultio.FragReader{Data: data, ZeroEvery: true, MaxPerCall: 1}, "every-other-call", -1)
+	for a := 0; a < len(data); a++ {
+		if len(data) > 6000 && a%7 != 0 && a > 64 && a < len(data)-64 {
+			continue
+		}
+		try(&faultio.FragReader{Data: data, ZeroAt: a + 1}, "once-in="+field(data, a), a)
+	}
+}
+
 func fragmentations(data []byte, label string, pairs, triples bool) {
 	want := readMem(data)
 	ctx.Add("files", 1)
+	zeroReads(data, want, label)
 	for _, eof := range []bool{false, true} {
 		one(data, want, nil, 0, eof, label)
 		for _, per := range []int{1, 2, 3, 7, 100, 101, 1000, 4095, 4096, 4097} {
@@ -203,7 +238,7 @@ func main() {
 		replay()
 		return
 	}
-	ctx.Assume("readers return at least one byte or an error per call (no zero-byte reads), as the property states")
+	ctx.Assume("fragmenting readers return at least one byte or an error per call; zero-byte reads (0, nil) - allowed by the io.Reader contract, not to be taken for end of file - are a family of their own: once at every offset, and every other call")
 	ctx.Assume("'same kind of failure' is compared coarsely: none / ErrMissing / other error")
 	files, names := family()
 	// the ten smallest get every truncation as additional inputs
@@ -277,6 +312,10 @@ func replay() {
 		}
 	}
 	want := readMem(data)
+	if m["kind"] == "zero-read" {
+		zeroReads(data, want, "replay")
+		ctx.Finish("replay")
+	}
 	mp := 0
 	if v, ok := m["max_per_call"].(float64); ok {
 		mp = int(v)
